@@ -502,7 +502,7 @@ Proof. reflexivity. Qed.
 Lemma pq_req_data_eq data len c : connp_req_data cb g data len c =
   if (c_in_status c =? c_HTP_STREAM_STOP)%Z then (c, c_HTP_STREAM_STOP)
   else if (c_in_status c =? c_HTP_STREAM_ERROR)%Z then (c, c_HTP_STREAM_ERROR)
-  else if match c_in_tx c with None => negb (req_state_eqb (c_in_state c) REQ_IDLE) | Some _ => false end
+  else if match c_in_tx c with None => negb (req_state_eqb (c_in_state c) REQ_IDLE) && negb (c_in_status c =? c_HTP_STREAM_TUNNEL)%Z | Some _ => false end
   then (c <| c_in_status := c_HTP_STREAM_ERROR |>, c_HTP_STREAM_ERROR)
   else if (len =? 0)%nat && negb (c_in_status c =? c_HTP_STREAM_CLOSED)%Z then (c, c_HTP_STREAM_CLOSED)
   else if (c_in_status c =? c_HTP_STREAM_TUNNEL)%Z then (pq_entry data len c, c_HTP_STREAM_TUNNEL)
